@@ -626,7 +626,7 @@ func (h *h18) doUpdate(c poolCfg) string {
 			}
 		}
 	}
-	err := withCache(h.ctx, func(cc sdk.Context) error { return hd.Apply(cc, 1, content, sdk.ZeroDec()) })
+	err := h.w.Enact(h.ctx, 1, content)
 	out := cls(err)
 	line := fmt.Sprintf("spend update name=%s %s", c.name, h.argStr(c, false))
 	h.r.Op(line, out)
@@ -645,9 +645,9 @@ func (h *h18) doUpdate(c poolCfg) string {
 
 func (h *h18) doDistribute(t int64, name string) string {
 	b := h.snap()
-	hd := spending.NewApplySpendingPoolDistributionProposalHandler(h.w.app.SpendingKeeper, h.w.app.CustomGovKeeper)
+	_ = spending.NewApplySpendingPoolDistributionProposalHandler // the handler the router holds for this content
 	content := &spendingtypes.SpendingPoolDistributionProposal{PoolName: name}
-	err := withCache(h.at(t), func(cc sdk.Context) error { return hd.Apply(cc, 1, content, sdk.ZeroDec()) })
+	err := h.w.Enact(h.at(t), 1, content)
 	out := cls(err)
 	line := fmt.Sprintf("spend distribute t=%d name=%s", t, name)
 	h.r.Op(line, out)
@@ -694,7 +694,6 @@ func (h *h18) doDistribute(t int64, name string) string {
 
 func (h *h18) doWithdraw(name string, bens []int, coins []sdk.Coin) string {
 	b := h.snap()
-	hd := spending.NewApplySpendingPoolWithdrawProposalHandler(h.w.app.SpendingKeeper, h.w.app.BankKeeper)
 	content := &spendingtypes.SpendingPoolWithdrawProposal{PoolName: name, Amounts: coins}
 	var bl []string
 	touched := map[int]bool{}
@@ -707,7 +706,7 @@ func (h *h18) doWithdraw(name string, bens []int, coins []sdk.Coin) string {
 	if len(bl) > 0 {
 		bs = strings.Join(bl, ",")
 	}
-	err := withCache(h.ctx, func(cc sdk.Context) error { return hd.Apply(cc, 1, content, sdk.ZeroDec()) })
+	err := h.w.Enact(h.ctx, 1, content)
 	out := cls(err)
 	line := fmt.Sprintf("spend withdraw name=%s bens=%s coins=%s", name, bs, h.rawCoinsStr(coins))
 	h.r.Op(line, out)
